@@ -12,6 +12,7 @@ import (
 	"fmt"
 	"math/rand"
 	"os"
+	"runtime/debug"
 	"sort"
 	"sync"
 )
@@ -268,4 +269,24 @@ func Guard(f func()) (p interface{}) {
 	}()
 	f()
 	return nil
+}
+
+// GuardStack is Guard that also returns the stack of the panic (first lines).
+func GuardStack(f func()) (p interface{}, stack string) {
+	if os.Getenv("VERIF_NOGUARD") != "" {
+		f()
+		return nil, ""
+	}
+	defer func() {
+		if r := recover(); r != nil {
+			p = r
+			b := debug.Stack()
+			if len(b) > 3000 {
+				b = b[:3000]
+			}
+			stack = string(b)
+		}
+	}()
+	f()
+	return nil, ""
 }
